@@ -209,7 +209,7 @@ var c04Modes = []uint32{0, 0644, 0755, 0600, 0777, 04755, 02755, 01777, 07777, 0
 
 func genC04(t *rapid.T) c04Case {
 	c := c04Case{Seed: rapid.Bool().Draw(t, "seeded")}
-	c.Cache = cacheCfg{AttrTTLns: pick(t, "ttl", int64(1), int64(3600e9)), AttrSize: pick(t, "asize", 2, 10000), DirCache: rapid.Bool().Draw(t, "dc"), Negative: rapid.Bool().Draw(t, "neg")}
+	c.Cache = cacheCfg{AttrTTLns: pick(t, "ttl", int64(1), int64(3600e9)), AttrSize: pick(t, "asize", 2, 10000), DirCache: rapid.Bool().Draw(t, "dc"), Negative: rapid.Bool().Draw(t, "neg"), Conn: rapid.IntRange(0, 3).Draw(t, "conn") == 0}
 	maxOps := 25
 	if thorough() {
 		maxOps = 40
@@ -287,6 +287,7 @@ func runC04(tb stat.TB, c c04Case) {
 	var opts = newOpts(c.Cache)
 	s := newSession(tb, v, opts)
 	defer s.close()
+	s.e.ViaConn = c.Cache.Conn
 	var cl *nsClient
 	known := false
 	abandoned := guard(func() {
